@@ -1,7 +1,7 @@
 """C02 — each delivery runs exactly one consistent snapshot of the actions, in order (structural part)."""
 import re
 from .. import cfg
-from ..anchors import handler, action_dyn, is_user_code
+from ..anchors import handler, action_dyn, is_user_code, action_site
 from ..atomics import sites
 from ..facts import keyname, AnchorLost
 from ..flow import flow, deps, deep_strip, strip, show, mentions, fold
@@ -64,19 +64,27 @@ def rule_b(ctx):
     kd = deps(h, flow(h).term_arg(lbb, 1))
     ctx.check(("param", 1) in kd and not any(x[0] == "call" for x in kd) and not any(x[0] == "const" for x in kd), rid, "key-is-sig",
               "the lookup key is the handler's `sig` argument", lt["sp"], sorted(str(x) for x in kd))
-    ac = action_calls(F, h)
-    ctx.check(len(ac) == 1, rid, "one-action-call-site", "one call site of the action type in the dispatcher", h.span, [t["sp"] for _, t in ac])
-    if len(ac) != 1:
+    h0, found = action_site(F)
+    ctx.check(len(found) == 1, rid, "one-action-call-site", "one call site of the action type in the dispatcher (helpers included)", h.span,
+              [t["sp"] for _, _, t, _ in found])
+    if len(found) != 1:
         return
-    abb, at = ac[0]
-    comps = [c for c in cfg.cycles(h) if abb in c]
+    A, abb, at, chain = found[0]
+    ctx.fn(A)
+    # a helper between the dispatcher and the loop is called exactly once, outside loops, and receives the looked-up slot
+    src_local = None
+    for (fm, cb) in chain:
+        okk, why = exactly_once(fm, [cb]) if fm.id != h.id else (not cfg.in_cycle(fm, cb), "call in a loop")
+        ctx.check(okk if fm.id != h.id else not cfg.in_cycle(fm, cb), rid, "helper-called-once@%s" % keyname(fm.name), "the helper running the actions is called once per delivery, outside loops",
+                  fm.term(cb)["sp"], why)
+    comps = [c for c in cfg.cycles(A) if abb in c]
     ctx.check(len(comps) == 1, rid, "action-in-loop", "the action call is inside exactly one loop", at["sp"], "not inside a loop" if not comps else "nested")
     if len(comps) != 1:
         return
     comp = comps[0]
     nexts = []
     for b in comp:
-        t = h.term(b)
+        t = A.term(b)
         if t["k"] == "call" and t.get("f") is not None:
             c = F.inst[t["f"]]
             if t.get("def") in ("core::iter::traits::iterator::Iterator::next", "core::iter::traits::double_ended::DoubleEndedIterator::next_back") \
@@ -89,33 +97,48 @@ def rule_b(ctx):
               fwd[0][1]["sp"] if fwd else at["sp"], {"iterator_calls": [c.name[:160] for _, _, c in nexts]})
     if not fwd:
         return
-    # once per iteration: removing the `next` block leaves no cycle through the action call
     rest = set(comp) - {fwd[0][0]}
-    again = abb in cfg._reach(lambda b: [s for s in h.succ(b) if s in rest], abb) if False else False
-    seen = set(); st = [s for s in h.succ(abb) if s in rest]
+    again = False
+    seen = set(); st = [s for s in A.succ(abb) if s in rest]
     while st:
         x = st.pop()
         if x == abb:
             again = True; break
         if x in seen:
             continue
-        seen.add(x); st.extend(s for s in h.succ(x) if s in rest)
+        seen.add(x); st.extend(s for s in A.succ(x) if s in rest)
     ctx.check(not again, rid, "once-per-iteration", "the action is called once per iteration step", at["sp"], "the action call can repeat without advancing the iterator")
     # iterator derives from `actions` of the looked-up slot, no reversing adapter anywhere on the way
-    itd = deps(h, flow(h).term_arg(fwd[0][0], 0))
-    from_lookup = ("call", lbb) in itd
+    itd = deps(A, flow(A).term_arg(fwd[0][0], 0))
     via_actions = any(x[0] == "field" and x[2] and "signal_hook_registry::Slot" in x[2] for x in itd)
+    if A.id == h.id:
+        from_lookup = ("call", lbb) in itd
+    else:
+        # the slot reaches the helper as a parameter; follow the chain of calls back to the dispatcher's lookup
+        params = {x[1] for x in itd if x[0] == "param"}
+        from_lookup = False
+        cur = params
+        for (fm, cb) in reversed(chain):
+            nxtp = set(); hit = False
+            for pnum in cur:
+                if pnum - 1 < len(fm.term(cb)["args"]):
+                    dd = deps(fm, flow(fm).term_arg(cb, pnum - 1))
+                    if fm.id == h.id and ("call", lbb) in dd:
+                        hit = True
+                    nxtp |= {x[1] for x in dd if x[0] == "param"}
+            if hit:
+                from_lookup = True
+            cur = nxtp
     adapters = []
     for x in itd:
         if x[0] == "call":
-            t = h.term(x[1])
+            t = A.term(x[1])
             if t.get("f") is not None and re.search(r"::(rev|skip|take|step_by|filter|skip_while|take_while|chain|zip)$", F.inst[t["f"]].defp):
                 adapters.append(F.inst[t["f"]].defp)
     ctx.check(from_lookup and via_actions and not adapters, rid, "iterates-looked-up-slot",
               "the iterator is the ordered action map of the slot found for `sig` (no reordering/filtering adapter)", fwd[0][1]["sp"],
               {"from_lookup": from_lookup, "via_slot_field": via_actions, "adapters": adapters})
-    # the callee is the iterator's item
-    cd = deps(h, flow(h).term_arg(abb, 0))
+    cd = deps(A, flow(A).term_arg(abb, 0))
     ctx.check(("call", fwd[0][0]) in cd, rid, "calls-the-item", "the action invoked is the item yielded by that iterator", at["sp"], sorted(str(x) for x in cd)[:8])
 
 
